@@ -293,10 +293,12 @@ def c05_obligations():
                GRIDDER_IMPORTS)
 
 
+_MODSEL = os.path.join("verde", "model_selection.py")
 SCORE_FUNCS = ["check_data", "score_estimator", (_BASE_CLASSES, "BaseGridder.score")]
 SCORE_THEOREMS = ["src_BaseGridder_score_eq", "src_score_estimator_eq"]
 SCORE_TEMPLATES = ["pylite_score.v.tmpl"]
-SCORE_IMPORTS = "From Verde Require Model.Scoring.\nFrom Verde Require Import Proofs.PyLiteBridge."
+SCORE_IMPORTS = ("From Verde Require Model.Scoring.\n"
+                 "From Verde Require Import Proofs.PyLiteBridge Proofs.PyLiteCV.")
 
 
 def score_obligations():
@@ -304,8 +306,22 @@ def score_obligations():
     return tie("ScoreSrc", _BASE_UTILS, SCORE_FUNCS, SCORE_TEMPLATES, SCORE_THEOREMS, SCORE_IMPORTS)
 
 
+CVSCORE_FUNCS = [(_BASE_UTILS, f) if isinstance(f, str) else f for f in SCORE_FUNCS] + [
+    (os.path.join("verde", "utils.py"), "dispatch"), "select", "fit_score", "cross_val_score", "train_test_split"]
+CVSCORE_THEOREMS = SCORE_THEOREMS + ["src_select_eq", "src_select_nones", "src_fit_score_eq", "src_dispatch_eq",
+                                     "src_cross_val_score_eq", "cross_val_score_model", "src_train_test_split_eq"]
+CVSCORE_TEMPLATES = ["pylite_score.v.tmpl", "pylite_cvscore.v.tmpl", "pylite_tts.v.tmpl"]
+CVSCORE_IMPORTS = SCORE_IMPORTS
+
+
+def cvscore_obligations():
+    """score_obligations and, in the same generated file, verde/model_selection.py select / fit_score /
+    cross_val_score (+ verde/utils.py dispatch) against Model/Scoring.v (harness/pylite_cvscore.v.tmpl)"""
+    return tie("CVScoreSrc", _MODSEL, CVSCORE_FUNCS, CVSCORE_TEMPLATES, CVSCORE_THEOREMS, CVSCORE_IMPORTS)
+
+
 def c12_obligations():
-    return score_obligations()
+    return cvscore_obligations()
 
 
 SURFER_FUNCS = ["_read_surfer_header", "_check_surfer_integrity"]
